@@ -46,7 +46,7 @@ def make_ctx(spec, binding, need_fo=False):
 def entry_to_json(entry):
     spec, binding = entry
     if binding == "generated":
-        keep = {k: spec[k] for k in ("name", "gen", "genparams", "_max_states") if k in spec}
+        keep = {k: spec[k] for k in ("name", "gen", "genparams", "_max_states", "_path_only") if k in spec}
         return {"spec": keep, "binding": binding}
     return {"spec": spec_to_json(spec), "binding": binding}
 
@@ -100,11 +100,17 @@ def _run_entry(args):
             out["wall_s"] = time.time() - t0
             return out
         oracles = [ORACLES[p]() for p in pids if p in ORACLES]
-        res = explore(ctx, oracles, max_states=opts.get("max_states") or spec.get("_max_states"))
+        expand_only = None
+        if spec.get("_path_only"):
+            from .explore import plan_path_keys
+            expand_only = plan_path_keys(ctx)
+        res = explore(ctx, oracles, max_states=opts.get("max_states") or spec.get("_max_states"), expand_only=expand_only)
         param_transitions = 0
+        nontrivial_first_pass = dict(ctx.nontrivial)     # distinct cases: counted in the object pass only
         if opts.get("param_pass") and oracles:
             oracles2 = [ORACLES[p]() for p in pids if p in ORACLES]
-            res2 = explore(ctx, oracles2, max_states=opts.get("max_states") or spec.get("_max_states"), action_rep="param")
+            res2 = explore(ctx, oracles2, max_states=opts.get("max_states") or spec.get("_max_states"), action_rep="param",
+                           expand_only=expand_only)
             param_transitions = res2["transitions"]
         extra = {}
         for mod_name in opts.get("post", []):
@@ -114,13 +120,14 @@ def _run_entry(args):
         out.update({
             "states": res["states"], "transitions": res["transitions"], "capped": res["capped"],
             "stats": {f"{k[0]}|{k[1]}": v for k, v in ctx.stats.items()},
-            "nontrivial": dict(ctx.nontrivial),
+            "nontrivial": nontrivial_first_pass,
             "violations": ctx.violations,
             "viol_counts": {f"{k[0]}|{k[1]}": v for k, v in ctx.viol_counts.items()},
             "unknown_actions": ctx.unknown_actions[:5],
             "extra": extra,
             "hosts": ctx.layout.nhosts, "actions": len(ctx.actions),
             "param_transitions": param_transitions,
+            "path_bounded": bool(spec.get("_path_only")),
             "samples": ctx.samples[:2],
         })
     except HarnessError as e:
@@ -169,6 +176,8 @@ def run_family(pids, tier, opts=None, entries=None):
         agg["param_transitions"] = agg.get("param_transitions", 0) + r.get("param_transitions", 0)
         if r["capped"]:
             agg["capped_scenarios"].append(r["name"])
+        if r.get("path_bounded"):
+            agg.setdefault("path_bounded_scenarios", []).append([r["name"], r["hosts"], r["states"], r["transitions"]])
         for k, v in r["stats"].items():
             agg["outcome_classes"][k] += v
         for k, v in r["nontrivial"].items():
